@@ -115,6 +115,7 @@ class Explorer:
         self.inlined = set()
         self.contracts_used = set()
         self.covers = []
+        self.no_assume = set()      # (decision prefix, ordinal of the prove call): failed goals whose assumption would make the path infeasible
 
     def run(self, path_fn):
         work = [[]]
@@ -144,6 +145,7 @@ class Path:
         self.ghost = {}
         self.events = []
         self.hyps = []        # lemma instances added (names)
+        self.n_proves = 0
 
     # -- replay bookkeeping
     @property
@@ -234,11 +236,15 @@ class Path:
         the fork, so it is only (re-)assumed."""
         if isinstance(goal, bool):
             goal = z3.BoolVal(goal)
-        if _PROP and not self.replaying:
+        if _PROP:
             tags = _TAG.findall(name)
             if tags and _PROP not in tags:
                 # obligation of another property: decided by that property's own check; neither proved nor assumed here
                 return True
+        self.n_proves += 1
+        key = (tuple(self.decisions), self.n_proves)
+        if self.replaying and key in self.ex.no_assume:
+            return True
         if not self.replaying:
             g = z3.simplify(goal)
             t = time.time()
@@ -273,6 +279,16 @@ class Path:
             ms = (time.time() - t) * 1000
             self.ex.solver_s += ms / 1000
             self.ex.obligations.append(Obligation(name, self.ex.func_name, verdict, ms, kind, model, "z3", self.pid, None, extra))
+            if verdict == "failed" and assume_after:
+                # a failed goal is assumed afterwards only to keep one failure from cascading; when the goal is false on the *whole* path
+                # (e.g. an open known finding) the assumption would end the path and hide every obligation that follows it
+                self.solver.push()
+                self.solver.add(goal)
+                dead = self.solver.check() == z3.unsat
+                self.solver.pop()
+                if dead:
+                    self.ex.no_assume.add(key)
+                    return True
         if assume_after:
             self.assume(goal)
         return True
